@@ -98,8 +98,9 @@ type ovfCtx struct {
 	pkg         *ssa.Package
 	depth       int
 	condDepth   int
-	opaqueSteps string // some accumulation of the function sits under a guard computed by a call
-	opaqueArg   string // set when a parameter's range could not be read because a call site passes the result of a call
+	lits        map[string]bool // truth values of plain conditions known on the path being read
+	opaqueSteps string          // some accumulation of the function sits under a guard computed by a call
+	opaqueArg   string          // set when a parameter's range could not be read because a call site passes the result of a call
 	fn          *ssa.Function
 	facts       map[*ssa.BasicBlock][]ovfFact
 	terms       map[ssa.Value]string
@@ -186,6 +187,11 @@ func (c *ovfCtx) factsAt(b *ssa.BasicBlock) []ovfFact {
 		return f
 	}
 	var out []ovfFact
+	type ct struct {
+		cond  ssa.Value
+		truth bool
+	}
+	var conds []ct
 	for cur := b; cur.Idom() != nil; cur = cur.Idom() {
 		d := cur.Idom()
 		iff, ok := d.Instrs[len(d.Instrs)-1].(*ssa.If)
@@ -195,12 +201,49 @@ func (c *ovfCtx) factsAt(b *ssa.BasicBlock) []ovfFact {
 		for k := 0; k < 2; k++ {
 			s := d.Succs[k]
 			if len(s.Preds) == 1 && s.Dominates(b) {
-				out = append(out, c.condFacts(iff.Cond, k == 0)...)
+				conds = append(conds, ct{iff.Cond, k == 0})
 			}
 		}
 	}
+	// the truth values of the plain conditions first: they decide which edge of a materialised && / || was taken
+	saved := c.lits
+	c.lits = map[string]bool{}
+	for k, v := range saved {
+		c.lits[k] = v
+	}
+	for _, x := range conds {
+		if key, tr, ok := c.literal(x.cond, x.truth); ok {
+			c.lits[key] = tr
+		}
+	}
+	for _, x := range conds {
+		out = append(out, c.condFacts(x.cond, x.truth)...)
+	}
+	c.lits = saved
 	c.facts[b] = out
 	return out
+}
+
+// literal normalises a plain condition (no phi) to a key and a truth value: `!c`, `a != b` and `a == b` share keys.
+func (c *ovfCtx) literal(cond ssa.Value, truth bool) (string, bool, bool) {
+	for {
+		un, ok := cond.(*ssa.UnOp)
+		if !ok || un.Op != token.NOT {
+			break
+		}
+		cond, truth = un.X, !truth
+	}
+	if bo, ok := cond.(*ssa.BinOp); ok && (bo.Op == token.EQL || bo.Op == token.NEQ) {
+		a, b := c.term(bo.X), c.term(bo.Y)
+		if b < a {
+			a, b = b, a
+		}
+		if bo.Op == token.NEQ {
+			truth = !truth
+		}
+		return "eq(" + a + "," + b + ")", truth, true
+	}
+	return c.term(cond), truth, true
 }
 
 // condFacts turns a comparison taken with the given truth value into facts.
@@ -223,7 +266,17 @@ func (c *ovfCtx) condFacts(cond ssa.Value, truth bool) []ovfFact {
 				if constant.BoolVal(k.Value) != truth {
 					continue
 				}
-				return nil // the constant itself has the wanted value: nothing follows
+				// the constant itself has the wanted value: nothing follows — unless the edge that carries it is
+				// known not to have been taken (its short-circuit test has the other truth value on this path)
+				p := x.Block().Preds[i]
+				if iff, ok := p.Instrs[len(p.Instrs)-1].(*ssa.If); ok && p.Succs[0] != p.Succs[1] {
+					if key, tr, ok := c.literal(iff.Cond, p.Succs[0] == x.Block()); ok {
+						if known, ok := c.lits[key]; ok && known != tr {
+							continue
+						}
+					}
+				}
+				return nil
 			}
 			if rem >= 0 {
 				return nil
@@ -352,8 +405,70 @@ func (c *ovfCtx) bound(v ssa.Value, facts []ovfFact) (*big.Int, *big.Int) {
 		switch x.Op {
 		case token.MUL:
 			exact = new(big.Int).Mul(xu, yu)
+			// a <= X / K  gives  a*K <= X
+			for _, pair := range [][2]ssa.Value{{x.X, x.Y}, {x.Y, x.X}} {
+				k := ovfConst(pair[1])
+				if k == nil || k.Sign() <= 0 {
+					continue
+				}
+				at := c.term(pair[0])
+				for _, f := range facts {
+					if c.term(f.lhs) != at {
+						continue
+					}
+					if q, ok := f.rhs.(*ssa.BinOp); ok && q.Op == token.QUO {
+						if k2 := ovfConst(q.Y); k2 != nil && k2.Cmp(k) == 0 {
+							if xu2 := c.upperNoFact(q.X, facts); xu2 != nil {
+								exact = minBig(exact, xu2)
+							}
+						}
+					}
+				}
+			}
 		case token.ADD:
 			exact = new(big.Int).Add(xu, yu)
+			vt0 := c.term(v)
+			for _, f := range facts {
+				// an unsigned sum that is not smaller than one of its operands did not wrap
+				if c.term(f.rhs) == vt0 && (c.term(f.lhs) == c.term(x.X) || c.term(f.lhs) == c.term(x.Y)) {
+					exact = minBig(exact, tm)
+				}
+			}
+			// a <= (M - b) / K, with M - b not wrapping, bounds a*K + b by M
+			for _, pair := range [][2]ssa.Value{{x.X, x.Y}, {x.Y, x.X}} {
+				mul, ok := pair[0].(*ssa.BinOp)
+				if !ok || mul.Op != token.MUL {
+					continue
+				}
+				for _, mp := range [][2]ssa.Value{{mul.X, mul.Y}, {mul.Y, mul.X}} {
+					k := ovfConst(mp[1])
+					if k == nil || k.Sign() <= 0 {
+						continue
+					}
+					at, bt := c.term(mp[0]), c.term(pair[1])
+					for _, f := range facts {
+						if c.term(f.lhs) != at {
+							continue
+						}
+						q, ok := f.rhs.(*ssa.BinOp)
+						if !ok || q.Op != token.QUO {
+							continue
+						}
+						if k2 := ovfConst(q.Y); k2 == nil || k2.Cmp(k) != 0 {
+							continue
+						}
+						sub, ok := q.X.(*ssa.BinOp)
+						if !ok || sub.Op != token.SUB || c.term(sub.Y) != bt {
+							continue
+						}
+						m, bu := c.upperStruct(sub.X, facts), c.upperStruct(pair[1], facts)
+						if m == nil || bu == nil || bu.Cmp(c.lower(sub.X, facts)) > 0 {
+							continue
+						}
+						exact = minBig(exact, m)
+					}
+				}
+			}
 			// a <= M - b, with M - b not wrapping, bounds a + b by M
 			for _, pair := range [][2]ssa.Value{{x.X, x.Y}, {x.Y, x.X}} {
 				at, bt := c.term(pair[0]), c.term(pair[1])
@@ -434,7 +549,9 @@ func (c *ovfCtx) bound(v ssa.Value, facts []ovfFact) (*big.Int, *big.Int) {
 		}
 	}
 	if exact != nil && exact.Cmp(tm) <= 0 {
+		// no wrap: machine value and exact value coincide, so a bound on one bounds the other
 		best = minBig(best, exact)
+		exact = best
 	}
 	return best, exact
 }
@@ -655,8 +772,7 @@ func ovfFunc(r *core.Run, pkg *ssa.Package, fn *ssa.Function, sp ovfSpec) int {
 	}
 	sort.Slice(muls, func(i, j int) bool { return muls[i].Pos() < muls[j].Pos() })
 	for i, m := range muls {
-		facts := c.factsAt(m.Block())
-		_, exact := c.bound(m, facts)
+		exact := c.boundAtUses(m)
 		key := fmt.Sprintf("%s product %d of the accumulator does not wrap", name, i+1)
 		tm := typeMax(m.Type())
 		if exact == nil {
@@ -676,8 +792,7 @@ func ovfFunc(r *core.Run, pkg *ssa.Package, fn *ssa.Function, sp ovfSpec) int {
 		}
 	}
 	for i, s := range steps {
-		facts := c.factsAt(s.add.Block())
-		_, exact := c.bound(s.add, facts)
+		exact := c.boundAtUses(s.add)
 		key := fmt.Sprintf("%s accumulation %d stays within %s", name, i+1, sp.limit)
 		if exact == nil {
 			r.Unknown(key, s.add.Pos(), "the operands of the sum cannot be bounded")
@@ -763,6 +878,28 @@ func ovfRefusals(r *core.Run, c *ovfCtx, sp ovfSpec, mul, add *ssa.BinOp, idx in
 					continue
 				}
 				proved, why = true, fmt.Sprintf("%s - d < n*K on this edge, so n*K+d > %s >= %s", m, m, sp.limit)
+			}
+		}
+		if !proved {
+			mt, dt, at, addT := c.term(mul), c.term(digit), c.term(acc), c.term(add)
+			for _, f := range facts {
+				if !f.strict {
+					continue
+				}
+				// (M - d) / K < n (M - d not wrapping): n >= floor((M-d)/K) + 1, so K*n > M - d
+				if q, ok := f.lhs.(*ssa.BinOp); ok && q.Op == token.QUO && c.term(f.rhs) == at {
+					if k2 := ovfConst(q.Y); k2 != nil && k2.Cmp(k) == 0 {
+						if sub, ok := q.X.(*ssa.BinOp); ok && sub.Op == token.SUB && c.term(sub.Y) == dt {
+							if m := ovfConst(sub.X); m != nil && du.Cmp(m) <= 0 && m.Cmp(sp.limit) >= 0 {
+								proved, why = true, fmt.Sprintf("(%s - d)/K < n on this edge, so n*K+d > %s >= %s", m, m, sp.limit)
+							}
+						}
+					}
+				}
+				// the unsigned sum is smaller than one of its operands: it wrapped, the exact sum exceeds the type
+				if c.term(f.lhs) == addT && (c.term(f.rhs) == mt || c.term(f.rhs) == dt) {
+					proved, why = true, "the sum is smaller than one of its operands on this edge: it wrapped, so n*K+d > 2^64-1"
+				}
 			}
 		}
 		if proved {
@@ -878,6 +1015,16 @@ func ovfConversions(r *core.Run, c *ovfCtx, sp ovfSpec) {
 							ub = minBig(ub, k)
 						}
 					}
+					// n != C met on the path: the bound C tightens to C-1
+					for changed := true; changed; {
+						changed = false
+						for _, l := range lits {
+							if !l.truth && l.t == "eq("+minStr("#"+ub.String(), phiT)+","+maxStr("#"+ub.String(), phiT)+")" {
+								ub = new(big.Int).Sub(ub, big.NewInt(1))
+								changed = true
+							}
+						}
+					}
 					if ub.Cmp(worst) > 0 {
 						worst, worstPath = ub, trail
 					}
@@ -893,15 +1040,10 @@ func ovfConversions(r *core.Run, c *ovfCtx, sp ovfSpec) {
 					if iff, ok := p.Instrs[len(p.Instrs)-1].(*ssa.If); ok && p.Succs[0] != p.Succs[1] {
 						truth := p.Succs[0] == cur
 						f2 = append(append([]ovfFact{}, facts...), c.condFacts(iff.Cond, truth)...)
-						cond, tr := iff.Cond, truth
-						for {
-							un, ok := cond.(*ssa.UnOp)
-							if !ok || un.Op != token.NOT {
-								break
-							}
-							cond, tr = un.X, !tr
+						l2 = lits
+						if key, tr, ok := c.literal(iff.Cond, truth); ok {
+							l2 = append(append([]lit{}, lits...), lit{key, tr})
 						}
-						l2 = append(append([]lit{}, lits...), lit{c.term(cond), tr})
 						t2 = fmt.Sprintf("%s <- b%d[%v]", trail, p.Index, truth)
 					}
 					if p == h {
@@ -1095,4 +1237,72 @@ func reachesCall(v ssa.Value, seen map[ssa.Value]bool) string {
 		}
 	}
 	return ""
+}
+
+// boundAtUses judges a product or sum where it is carried on, not where it is computed: `n1 := n*10 + d; if n1 > max
+// { return 0, 0 }; n = n1` computes a value that may exceed the limit (or wrap) and discards it. The facts are those of
+// the edges into a phi and of the returns that the value reaches (through sums and conversions); the weakest bound over
+// these uses counts. A value with no such use is judged where it is computed.
+func (c *ovfCtx) boundAtUses(v ssa.Value) *big.Int {
+	var blocks []*ssa.BasicBlock
+	seen := map[ssa.Value]bool{}
+	var walk func(x ssa.Value)
+	walk = func(x ssa.Value) {
+		if seen[x] {
+			return
+		}
+		seen[x] = true
+		refs := x.Referrers()
+		if refs == nil {
+			return
+		}
+		for _, u := range *refs {
+			switch y := u.(type) {
+			case *ssa.Phi:
+				for i, e := range y.Edges {
+					if e == x {
+						blocks = append(blocks, y.Block().Preds[i])
+					}
+				}
+			case *ssa.Return:
+				blocks = append(blocks, y.Block())
+			case *ssa.BinOp:
+				if y.Op == token.ADD || y.Op == token.MUL {
+					walk(y)
+				}
+			case *ssa.Convert:
+				walk(y)
+			case *ssa.ChangeType:
+				walk(y)
+			}
+		}
+	}
+	walk(v)
+	if len(blocks) == 0 {
+		blocks = []*ssa.BasicBlock{v.(ssa.Instruction).Block()}
+	}
+	var worst *big.Int
+	for _, b := range blocks {
+		_, exact := c.bound(v, c.factsAt(b))
+		if exact == nil {
+			return nil
+		}
+		if worst == nil || exact.Cmp(worst) > 0 {
+			worst = exact
+		}
+	}
+	return worst
+}
+
+func minStr(a, b string) string {
+	if a < b {
+		return a
+	}
+	return b
+}
+func maxStr(a, b string) string {
+	if a < b {
+		return b
+	}
+	return a
 }
